@@ -211,6 +211,8 @@ def derive(old, how, delta, shift):  # noqa: C901  pylint: disable=too-many-bran
             return {"type": "RectangularRegion", "x1": x1 + shift, "y1": y1, "x2": x2 + shift + delta, "y2": y2}
         if how == "grow_one_side":
             return {"type": "RectangularRegion", "x1": x1, "y1": y1 - delta, "x2": x2 + 3, "y2": y2}
+        if how == "odd_cut":
+            how = "miss%d" % (int(abs(shift) * 2) % 4)
         if how.startswith("miss"):
             # a disc that covers three corners of the old rectangle and leaves the fourth one out
             k = int(how[4])
@@ -230,6 +232,14 @@ def derive(old, how, delta, shift):  # noqa: C901  pylint: disable=too-many-bran
         return {"type": "CircularRegion", "cx": cx + shift, "cy": cy, "r": math.hypot(x2 - cx, y2 - cy) + abs(shift) + delta}
     cx, cy, r = old["cx"], old["cy"], old["r"]
     if how.startswith("miss"):
+        how = "diag_cut"
+    if how == "odd_cut" and r > 0:
+        # a larger disc shifted in a direction that is neither axis-parallel nor diagonal (22.5 degrees off): the old disc sticks
+        # out by a sliver that lies between its cardinal and its diagonal rim points
+        d = 0.5 * r
+        ang = math.radians(22.5 + 45.0 * (int(abs(shift) * 2) % 8 + (4 if shift < 0 else 0)))
+        return {"type": "CircularRegion", "cx": cx + d * math.cos(ang), "cy": cy + d * math.sin(ang), "r": r + 0.96 * d}
+    if how == "odd_cut":
         how = "diag_cut"
     if how in ("diag_in", "diag_cut"):
         # a larger disc whose centre lies diagonally from the old one: internally tangent (plus delta), or cutting off a cap of
@@ -260,7 +270,7 @@ def derive(old, how, delta, shift):  # noqa: C901  pylint: disable=too-many-bran
 
 
 HOWS = ["grow", "grow", "shrink", "shift", "grow_one_side", "circum", "circum", "circum_minus", "inscr", "other",
-        "cut0", "cut1", "cut2", "cut3", "diag_in", "diag_cut", "diag_cut", "miss0", "miss1", "miss2", "miss3"]
+        "cut0", "cut1", "cut2", "cut3", "diag_in", "diag_cut", "diag_cut", "miss0", "miss1", "miss2", "miss3", "odd_cut", "odd_cut"]
 
 
 def machine(tier, col):  # pylint: disable=unused-argument
@@ -367,6 +377,30 @@ def machine(tier, col):  # pylint: disable=unused-argument
             data = ({"type": "RectangularRegion", "x1": a, "y1": b, "x2": a + 5.0, "y2": b + 3.0, "id": rid} if rect
                     else {"type": "CircularRegion", "cx": a, "cy": b, "r": 2.5, "id": rid})
             self.do(["api", "addExcludeRegion", data])
+
+        @rule(pick=st.integers(0, 9), vertical=st.booleans())
+        def cut_back_to_a_neighbour(self, pick, vertical):
+            """A second region is drawn over the far end of a rectangle, then the rectangle is cut back to beyond its middle: the
+            stretch between the two is lost (whatever its corners, edge midpoints and centre say)."""
+            cur = [r for r in self.stepper.h.regions() if r["type"] == "RectangularRegion"]
+            if not cur:
+                return
+            old = cur[pick % len(cur)]
+            x1, x2 = sorted((old["x1"], old["x2"]))
+            y1, y2 = sorted((old["y1"], old["y2"]))
+            n = len(self.case["ops"])
+            if vertical:
+                h = y2 - y1
+                if not 1.0 <= h < 1e6:
+                    return
+                self.do(["api", "addExcludeRegion", {"type": "RectangularRegion", "x1": x1 - 1, "y1": y2 - h / 8, "x2": x2 + 1, "y2": y2 + 1, "id": "n%d" % n}])
+                self.do(["api", "updateExcludeRegion", {"type": "RectangularRegion", "x1": x1, "y1": y1, "x2": x2, "y2": y1 + 0.6 * h, "id": old["id"]}])
+            else:
+                w = x2 - x1
+                if not 1.0 <= w < 1e6:
+                    return
+                self.do(["api", "addExcludeRegion", {"type": "RectangularRegion", "x1": x2 - w / 8, "y1": y1 - 1, "x2": x2 + 1, "y2": y2 + 1, "id": "n%d" % n}])
+                self.do(["api", "updateExcludeRegion", {"type": "RectangularRegion", "x1": x1, "y1": y1, "x2": x1 + 0.6 * w, "y2": y2, "id": old["id"]}])
 
         @rule(what=st.sampled_from(["off", "off", "on"]))
         def exclusion_switched_by_the_file(self, what):
